@@ -681,7 +681,7 @@ fn write_evidence(d: &Driver, path: &Path, violations: i64, replays: &[Value], k
         },
         "assumptions": [
             "input builders pseudo_toroidal_cover / covers / finite_universal_cover are trusted only as builders: their outputs are precondition-checked by harness code, failures exclude the input",
-            "canonical(minimal_image(.)) is the observable named by the property (O16.5); index-3/4 subgroup counts use fundamental_group + coset_tables of the repository (C09/C12); H1 and index-2 counts are computed by independent harness code",
+            "canonical(minimal_image(.)) is the observable named by the property (O16.5); subgroup counts of index <= 4 are computed by the harness's own enumeration on the presentation returned by the repository's fundamental_group (C09; cross-checked through H1 against an independent textbook presentation + Smith normal form); the repository's coset_tables is only a cross-check whose disagreements are counted under notes",
             "std resolves RandomState keys through getrandom(2) (verified by a start-up self-test on every run; failure is exit 2)",
             "sampling, not enumeration: a clean batch is evidence, not proof",
         ],
